@@ -224,7 +224,8 @@ def handle (sd : Side) (op : List String) (impl : List String) : Handled :=
       let batch := b.map (fun (_, e, k, v) => (e, k, v))
       let implR := parseOutWith pInt impl
       -- L0
-      let spec' : Spec := if sd.ro then sd.spec else
+      -- (a call on a closed handle - only shrinking produces one - changes nothing)
+      let spec' : Spec := if sd.ro ∨ sd.mlog.isNone then sd.spec else
         { live := sd.spec.live ++ Spec.stampSpec sd.spec.next batch, next := sd.spec.next + batch.length }
       let v1 := match implR with
         | some r => viol (decideB (Spec.PublishOK sd.ro sd.spec batch r spec')) "PublishOK"
